@@ -245,7 +245,7 @@ def main():
                           "over every table (metadata included); non-trivial = the bundle emitted "
                           "stored actions or raised")
   tune_explore(4)
-  explore.explore(rep, "checks.C02", "C02Monitor", n_quick=112, budget_quick_s=22)
+  explore.explore(rep, "checks.C02", "C02Monitor", n_quick=160, budget_quick_s=30)
   return rep.finish()
 
 
